@@ -37,6 +37,11 @@ def container(kind, arrs, dtype):
         pad = [np.asarray([1, 2, 3], dtype=dtype)]
         full = SignatureArray(pad + arrs + pad, ks, dtype=np.dtype(dtype))
         return full[1:len(arrs) + 1]                 # contiguous slice: values is a view into a larger array
+    if kind == 'window':
+        # a zero-copy window into a larger collection: the values array is shared and bounds[0] != 0
+        pad = [np.asarray([1, 2, 3], dtype=dtype), np.asarray([4], dtype=dtype)]
+        full = SignatureArray(pad + arrs + pad, ks, dtype=np.dtype(dtype))
+        return SignatureArray.from_arrays(full.values, full.bounds[2:len(arrs) + 3], ks)
     if kind == 'hdf5':
         key = core.canon([[list(map(int, a)) for a in arrs], str(dtype)])
         if key not in _H5:
@@ -152,12 +157,12 @@ class Matrix(Fam):
     def inputs(self, ctx):
         reps = 2 if ctx.tier == 'quick' else 10
         self.rule = ('pools of 6-7 signatures (empty, singleton, duplicates) x reference container {SignatureArray (intp and int32 bounds), SignatureList, plain list, '
-                     'HDF5 file, contiguous slice view} x dtype pairs (same width, signed/unsigned, query wider than references with values '
+                     'HDF5 file, contiguous slice view, zero-copy window with bounds[0] != 0} x dtype pairs (same width, signed/unsigned, query wider than references with values '
                      'congruent mod 2^16) x chunk size {None,1,2,3,n,n+2} x index selections (None, permutations, repeats, non-monotone runs, '
                      'empty, random) x caller-supplied out (none, NaN-filled, strided view) x threads {1,3,16} x repeated runs; '
                      'non-trivial = >= 2 columns over non-identical signatures')
         rng = ctx.rng
-        conts = ['array', 'list', 'plain', 'hdf5', 'view', 'array32']
+        conts = ['array', 'list', 'plain', 'hdf5', 'view', 'array32', 'window']
         dpairs = [('u2', 'u2'), ('u8', 'u8'), ('i8', 'u4'), ('u2', 'i4')]
         for pname, pool in POOLS.items():
             pairs = dpairs if pname == 'basic' else [('u8', 'u8'), ('u4', 'u4'), ('u8', 'u4'), ('i8', 'u4'), ('u4', 'u2'), ('u8', 'u2')]
@@ -192,7 +197,7 @@ class Pairwise(Fam):
         rng = ctx.rng
         for pname, pool in POOLS.items():
             n = len(pool)
-            for cont in ['array', 'list', 'plain', 'hdf5', 'view']:
+            for cont in ['array', 'list', 'plain', 'hdf5', 'view', 'window']:
                 for dt in (['u2', 'u8', 'i4'] if pname == 'basic' else ['u4', 'i8']):
                     for idx in index_variants(n, rng, 'quick'):
                         for op in ('square', 'flat'):
